@@ -65,6 +65,36 @@ def escape_loop_shape(w, f):
     return True, "single pass over chars(): backslash -> two backslashes, dot -> backslash dot, one character consumed per iteration"
 
 
+def list_order_rule(ctx, w, rule):
+    """No function of ruma_common::push disturbs the order of a rule list (shared with C13: the order after any edit is the documented one)."""
+    ctx.rule(rule, "no function of ruma_common::push disturbs the order of a rule list: the IndexSets are only changed by order-preserving operations "
+                               "(insert, shift_remove/shift_take, move_index under C13's rules, retain, extend) - never swap_remove/swap_take, sort or reverse, "
+                               "which would change which rule is the FIRST match")
+    DISTURB = re.compile(r"indexmap::(set::IndexSet|map::IndexMap)::<.*>::(swap_remove\w*|swap_take|swap_indices|sort\w*|reverse|pop|swap_remove_index)$")
+    n_ops, dist = 0, []
+    for g in w.all_fns():
+        if "body" not in g or not g["path"].replace("<", "").startswith((PU, "ruma_common::push::")) and "ruma_common::push::" not in g["path"]:
+            continue
+        for body in M.all_bodies(g):
+            for _, c in M.calls(body):
+                nm = M.callee_name(c)
+                if nm.startswith("indexmap::"):
+                    n_ops += 1
+                    if DISTURB.search(nm):
+                        dist.append((re.sub(r"(::\{closure#\d+\})+", "", g["path"]).rsplit("::", 2)[-2:], nm.rsplit("::", 1)[-1], c["line"], g))
+    seen_lo = set()
+    for gp, op, line, g in dist:
+        if ("::".join(gp), op) in seen_lo:
+            continue
+        seen_lo.add(("::".join(gp), op))
+        ctx.violation(rule, f"{rule}:{'::'.join(gp)}:{op}", w.where(g, line),
+                      f"{'::'.join(gp)} calls IndexSet::{op}, which moves another rule into the vacated position: the relative order of the remaining (user-defined) "
+                      f"rules changes, and with it the first matching rule")
+    if not dist:
+        ctx.ok(rule, f"{rule}:scan", "", f"{n_ops} indexmap operations in ruma_common::push, none order-disturbing")
+    ctx.floor("indexmap operations in ruma_common::push", n_ops, 15)
+
+
 def run(ctx):
     fx = ctx.facts("A")
     w = W.World(fx, ["ruma_common"])
@@ -331,32 +361,7 @@ def run(ctx):
         pass
     ctx.check(uses_escape and joins == {"."}, "C12.escape", "C12.escape:join", w.where(ff), bad_msg=f"nested keys: escape_key used={uses_escape}, join literals={sorted(joins)}")
 
-    ctx.rule("C12.list-order", "no function of ruma_common::push disturbs the order of a rule list: the IndexSets are only changed by order-preserving operations "
-                               "(insert, shift_remove/shift_take, move_index under C13's rules, retain, extend) - never swap_remove/swap_take, sort or reverse, "
-                               "which would change which rule is the FIRST match")
-    DISTURB = re.compile(r"indexmap::(set::IndexSet|map::IndexMap)::<.*>::(swap_remove\w*|swap_take|swap_indices|sort\w*|reverse|pop|swap_remove_index)$")
-    n_ops, dist = 0, []
-    for g in w.all_fns():
-        if "body" not in g or not g["path"].replace("<", "").startswith((PU, "ruma_common::push::")) and "ruma_common::push::" not in g["path"]:
-            continue
-        for body in M.all_bodies(g):
-            for _, c in M.calls(body):
-                nm = M.callee_name(c)
-                if nm.startswith("indexmap::"):
-                    n_ops += 1
-                    if DISTURB.search(nm):
-                        dist.append((re.sub(r"(::\{closure#\d+\})+", "", g["path"]).rsplit("::", 2)[-2:], nm.rsplit("::", 1)[-1], c["line"], g))
-    seen_lo = set()
-    for gp, op, line, g in dist:
-        if ("::".join(gp), op) in seen_lo:
-            continue
-        seen_lo.add(("::".join(gp), op))
-        ctx.violation("C12.list-order", f"C12.list-order:{'::'.join(gp)}:{op}", w.where(g, line),
-                      f"{'::'.join(gp)} calls IndexSet::{op}, which moves another rule into the vacated position: the relative order of the remaining (user-defined) "
-                      f"rules changes, and with it the first matching rule")
-    if not dist:
-        ctx.ok("C12.list-order", "C12.list-order:scan", "", f"{n_ops} indexmap operations in ruma_common::push, none order-disturbing")
-    ctx.floor("indexmap operations in ruma_common::push", n_ops, 15)
+    list_order_rule(ctx, w, "C12.list-order")
     ctx.rule("C12.case-fold", "matches_pattern hands BOTH the value and the pattern to matches_word / WildMatch after the same Unicode case folding "
                               "(str::to_lowercase or to_uppercase): an ASCII-only folding makes `émile` miss `Émile`")
     import json as _json
